@@ -14,7 +14,7 @@
      - the identifier components: excused when the model's problem is in IdentClass;
      - formula typing / readability: excused when the task is outside the decidable task premise
        of Properties/C09tasks.v (M.TaskPremises.strong_task_ok / ext_task_ok: free variables in a
-       specification or user-guide assumption, mu representation) or in IdentClass;
+       specification or user-guide assumption, a program variable with an empty name) or in IdentClass;
      - outside both classes the text read back must equal [emit] of the model
        (C09_*_task_reads_as_emit).
    The `_strict` variants excuse nothing (replay of known findings). *)
